@@ -38,15 +38,32 @@ def tla_set(xs):
     return "{" + ", ".join('"%s"' % x for x in xs) + "}"
 
 
-def proj(st):
+def has_woken_bit():
+    """the registration of the tree under test has the `_woken` bit (repair of the copy-of-woken defect): then the
+    replayers project it and every configuration compares it; the dedicated copy-of-woken configurations always do"""
+    try:
+        return "_woken" in open(os.path.join(vlib.REPO, "src/cocls/publisher.h")).read()
+    except OSError:
+        return False
+
+
+def reg_proj(r, woken):
+    d = {"pos": r["pos"], "used": r["used"], "kicked": r["kicked"], "awt": r["awt"]}
+    if woken:
+        d["woken"] = r["woken"]
+    return d
+
+
+def proj(st, woken=None):
+    woken = has_woken_bit() if woken is None else woken
     regs = []
     for r in st["regs"]:
-        regs.append({"pos": r["pos"], "used": r["used"], "kicked": r["kicked"], "awt": r["awt"]})
+        regs.append(reg_proj(r, woken))
     subs = {}
     for i, pc in enumerate(st["pc"]):
         if pc == "unborn":
             continue
-        if pc in ("wfetch_c", "wfetch_l", "wfetch_b"):
+        if pc in ("wfetch_c", "wfetch_l", "wfetch_b") or st["plan"]["st"] == "due":
             raise MachineryError("path ends inside a wake-up (merge failed)")
         subs[str(i + 1)] = {"pc": pc, "hnd": st["hnd"][i], "mode": st["mode"][i], "recv": st["recv"][i],
                             "res": st["res"][i], "wakes": st["wakes"][i]}
@@ -55,13 +72,16 @@ def proj(st):
 
 
 def consts(nsubs, mn, mx, modes, styles=ALL_STYLES, pub=4, batch=2, join=None, kick=1, at=None, copybusy=False,
-           serial=True):
+           serial=True, copywoken=False, founders=None):
     at = list(range(0, pub + 1)) if at is None else at
     return {"NSubs": nsubs, "MinLen": mn, "MaxLen": mx, "Modes": tla_set(modes), "Styles": styles,
             "MaxPub": pub, "MaxBatch": batch, "MaxJoin": join if join is not None else nsubs + 1, "MaxKick": kick,
             "AtPos": "{" + ", ".join(str(x) for x in at) + "}",
             "Serial": "TRUE" if serial else "FALSE", "CopyBusy": "TRUE" if copybusy else "FALSE",
-            "FixCloseRace": "TRUE", "FixGetValue": "TRUE", "FixBlocking": "TRUE", "FixCopyParked": "TRUE"}
+            "CopyWoken": "TRUE" if copywoken else "FALSE",
+            "Founders": "{" + ", ".join(str(x) for x in (founders or range(1, nsubs + 1))) + "}",
+            "FixCloseRace": "TRUE", "FixGetValue": "TRUE", "FixBlocking": "TRUE", "FixCopyParked": "TRUE",
+            "FixCopyOfWoken": "TRUE"}
 
 
 def label(c):
@@ -192,13 +212,14 @@ MUST_TAKE = ["SubscribeRecent", "SubscribeAt", "Leave", "Ready", "Subscribe", "F
              "Wake", "WFetch", "PushCS", "Close", "KickCS", "KickGone"]
 
 
-def replay_config(ctx, rp, c, tag, must=MUST_TAKE, max_paths=None, extra_random=0, key_fn=None):
+def replay_config(ctx, rp, c, tag, must=MUST_TAKE, max_paths=None, extra_random=0, key_fn=None, cfg="Publisher_seq.cfg",
+                  woken=None):
     def hdr(k, st0, c=c):
         return {"min": c["MinLen"], "max": c["MaxLen"], "wake": "handle" if k % 2 else "fn",
                 "single": ("rvalue", "lvalue", "range")[k % 3], "block": ("bool", "iter")[(k // 2) % 2]}
     with fast_cover():
-        return graph_replay(ctx, "Publisher", "Publisher", "Publisher_seq.cfg", tag, rp, proj, header_fn=hdr,
-                            merge_re=r"(Wake|WFetch)$", must_take=must, constants=c, max_paths=max_paths,
+        return graph_replay(ctx, "Publisher", "Publisher", cfg, tag, rp, (lambda st: proj(st, woken)), header_fn=hdr,
+                            merge_re=r"(Wake|WFetch|WakeCopy)$", must_take=must, constants=c, max_paths=max_paths,
                             extra_random=extra_random, key_fn=key_fn, tlc_kw={"workers": 4},
                             replay_timeout=180 if ctx.quick else 900)
 
@@ -241,10 +262,10 @@ def must_for(styles, kick, at, copy=True):
 CONC_INVARIANTS = INVARIANTS + " ThreadsOK NobodyForgotten"
 
 
-def conc_proj(st):
+def conc_proj(st, woken=None):
     """expected projection of a PublisherConc state: queue state as in proj(), what every subscriber's caller has
     seen so far, and the pending operation of every thread after the code without visible effect has run"""
-    regs = [{"pos": r["pos"], "used": r["used"], "kicked": r["kicked"], "awt": r["awt"]} for r in st["regs"]]
+    regs = [reg_proj(r, has_woken_bit() if woken is None else woken) for r in st["regs"]]
     subs, pend = {}, {}
     ppc, pco, pdel = st["ppc"], st["pco"], st["pdel"]
     pend["P"] = {"idle": "idle", "wake": "unlocked", "co": "lock", "tail": "lock"}[ppc]
@@ -272,9 +293,9 @@ def conc_proj(st):
             "nextFree": st["nextFree"], "regs": regs, "subs": subs, "pend": pend}
 
 
-def conc_consts(nsubs, mn, mx, modes, cstyles, pub, batch, join, kick, at=(), copybusy=True):
+def conc_consts(nsubs, mn, mx, modes, cstyles, pub, batch, join, kick, at=(), copybusy=True, copywoken=False, founders=None):
     c = consts(nsubs, mn, mx, modes, styles='{"split"}', pub=pub, batch=batch, join=join, kick=kick, at=list(at),
-               copybusy=copybusy, serial=False)
+               copybusy=copybusy, serial=False, copywoken=copywoken, founders=founders)
     c["CStyles"] = tla_set(cstyles)
     return c
 
@@ -298,6 +319,10 @@ def conc_replay(ctx, tag="conc", max_paths_quick=1200, max_paths_thorough=9000):
                    ("c", conc_consts(1, 2, 2, ["behind"], ["block", "poll", "coro"], 4, 3, 2, 1)),
                    ("d", conc_consts(1, 1, U, ["all", "recent"], ["block", "poll", "coro"], 3, 2, 2, 1)),
                    ("e", conc_consts(3, 1, 2, ["all"], ["block", "coro"], 1, 1, 3, 0, copybusy=False))]
+    # a thread copies a subscriber in the window between the publisher's critical section that collected its awaiter and
+    # the original's get_value (own key: remainder of the copy-of-parked defect)
+    configs.append(("w", conc_consts(2, 1, U, ["all"], ["block", "coro"], 1 if ctx.quick else 2, 1, 2, 0, copywoken=True,
+                                     founders=[1])))
     must = ["TJoinRecent", "TLeave", "TReady", "TSubscribe", "TFetch", "PPush", "PClose", "PWake", "PFetch", "PTail"]
     for (name, c) in configs:
         n = c["NSubs"]
@@ -312,13 +337,15 @@ def conc_replay(ctx, tag="conc", max_paths_quick=1200, max_paths_thorough=9000):
             m.append("PKick")
         if n > 1:
             m.append("TJoinCopy")
+        window = name == "w"
         with fast_cover():
-            graph_replay(ctx, "Publisher", "PublisherConc", "PublisherConc.cfg", "%s_%s" % (tag, name), rpc, conc_proj,
+            graph_replay(ctx, "Publisher", "PublisherConc", "PublisherConc.cfg", "%s_%s" % (tag, name), rpc,
+                         (lambda st, window=window: conc_proj(st, True if window else None)),
                          header_fn=hdr, must_take=m, constants=c, max_paths=max_paths_quick if ctx.quick else max_paths_thorough,
-                         tlc_kw={"workers": 4}, replay_timeout=180 if ctx.quick else 1800)
+                         tlc_kw={"workers": 4}, replay_timeout=180 if ctx.quick else 1800,
+                         key_fn=(lambda sid, line, txt: "publisher_copy_of_woken_subscriber") if window else None)
     ctx.assume("publisher on real threads: lock grain (std::mutex virtual, atomic operations are not scheduling points; the "
-               "awaiter/sync_awaiter protocol itself is decided by C01/C02); one publisher thread, one thread per subscriber; a "
-               "parked subscriber is copied by another thread only while it is still registered")
+               "awaiter/sync_awaiter protocol itself is decided by C01/C02); one publisher thread, one thread per subscriber")
 
 
 def run(ctx):
@@ -364,6 +391,13 @@ def run(ctx):
     c = consts(2, 1, U, ["all"], styles='{"split", "coro"}', pub=2, batch=1, join=2, kick=0, at=[], copybusy=True)
     replay_config(ctx, rp, c, "copybusy", must=["SubscribeCopy", "Wake"], max_paths=cap,
                   key_fn=lambda sid, line, txt: "publisher_copy_of_parked_subscriber")
+    # a subscriber copied after push_lk collected its awaiter and before it fetched its value: by a waiter resumed earlier
+    # in the same wake-up loop (its resumption handler makes the copy), or simply before the woken original goes on
+    c = consts(3, 1, U, ["all"], styles='{"split"}' if ctx.quick else '{"split", "coro"}', pub=1 if ctx.quick else 2, batch=1,
+               join=3, kick=0 if ctx.quick else 1, at=[], copybusy=True, copywoken=True, founders=[1, 2])
+    replay_config(ctx, rp, c, "copywoken", must=["PlanCopy", "WakeCopy", "SubscribeCopy", "Wake", "PushCS", "Close"],
+                  max_paths=2000 if ctx.quick else 30000, cfg="Publisher_copywoken.cfg", woken=True,
+                  key_fn=lambda sid, line, txt: "publisher_copy_of_woken_subscriber")
     # interleavings of subscriber critical sections with the publisher's wake-up loop (design level)
     c = consts(2, 1, 2, ["all"] if ctx.quick else ["all", "recent"], styles='{"split"}', pub=2 if ctx.quick else 3, batch=2, join=2,
                kick=1, at=[0], serial=False)
@@ -384,6 +418,9 @@ def run(ctx):
                          "get_value_lk (skip_if_behind) does not record the delivered position")
         expect_violation(ctx, dict(consts(2, 1, U, ["all"], styles='{"split"}', pub=2, batch=1, join=2, kick=0, at=[], copybusy=True),
                                    FixCopyParked="FALSE"), "mut_copyparked", "copy of a parked subscriber takes the pre-incremented position")
+        expect_violation(ctx, dict(consts(3, 1, U, ["all"], styles='{"split"}', pub=1, batch=1, join=3, kick=0, at=[], copybusy=True,
+                                          copywoken=True, founders=[1, 2]), FixCopyOfWoken="FALSE"), "mut_copywoken",
+                         "copy of a subscriber whose awaiter was collected for a wake-up takes the pre-incremented position")
     # publisher thread against subscriber threads on real threads at lock grain
     conc_replay(ctx)
     vlib.log("  C16 threaded lock-grain replay done: %.0fs" % (time.time() - t0))
